@@ -152,6 +152,18 @@ def handle (j : Json) : R Json := do
                      ("tail", basesOk it (3 * (total - tl)) (3 * total)),
                      ("slices", jArr [sliceJ l 0 (3 * ld), sliceJ l (3 * ld) (3 * (total - tl)),
                                       sliceJ l (3 * (total - tl)) (3 * total)])])])
+  | "cds_table" =>
+    -- the gene's own translation: table choice + generation; `aas` = per-codon translations (Biopython) by table
+    let recordTable ← natF j "record_table"
+    let qual : Option Nat := match j.getObjVal? "qual" with
+      | .ok (.num n) => some n.mantissa.toNat
+      | _ => none
+    let tabs ← listOf (fun x => do return ((← asNat (← idx x 0)), (← asStr (← idx x 1)))) (← fld j "aas")
+    let tr : Nat → List Char := fun t => match tabs.find? (·.1 == t) with | some x => x.2.toList | none => []
+    return jObj (common ++ [
+      ("model", jObj [("table", toJson (cdsTable recordTable qual)),
+                      ("translation", Json.str (String.ofList (cdsGeneratedTranslation tr recordTable qual)))]),
+      ("spec", jObj [("guard", toJson true)])])
   | k => throw s!"C09: unknown kind {k}"
 
 end ASV.Drv.C09
